@@ -112,6 +112,33 @@ func checkC13(r *Run, pre, post *Snap, st StepObs, broken map[int]bool) (string,
 			return "allocated-above-capacity-after-" + st.Kind, fmt.Sprintf("blobber %d: allocated %d > capacity %d after an assignment", i, b.Allocd, b.Cap)
 		}
 	}
+	// the stake pool stored under blobber i is blobber i's pool: same delegate wallet, service charge and delegate
+	// pools as before; no modelled transaction adds stake, so no delegate balance grows, and only transactions
+	// that slash (challenge response, close, replace, kill, shut down) may lower one
+	slashing := map[string]bool{"chalresp": true, "finalize": true, "cancel": true, "update": true, "kill": true, "shutdown": true}
+	for i, b := range post.Blob {
+		if i >= len(pre.Blob) || !b.SPPresent || !pre.Blob[i].SPPresent || broken[-(300+i)] {
+			continue
+		}
+		q := pre.Blob[i]
+		bad := ""
+		switch {
+		case b.SPIdent != q.SPIdent && !(st.Op.K == "updblobber" && st.Op.B == i):
+			bad = "delegate wallet / service charge / delegate pools differ from the ones stored before"
+		case len(b.Pools) != len(q.Pools):
+			bad = "number of delegate pools changed"
+		default:
+			for j := range b.Pools {
+				if b.Pools[j] > q.Pools[j] || (b.Pools[j] != q.Pools[j] && !slashing[st.Op.K]) {
+					bad = fmt.Sprintf("delegate pool %d holds %d, held %d before", j, b.Pools[j], q.Pools[j])
+				}
+			}
+		}
+		if bad != "" {
+			broken[-(300+i)] = true
+			return "stake-pool-stored-under-wrong-blobber-after-" + st.Kind, fmt.Sprintf("blobber %d: %s", i, bad)
+		}
+	}
 	offersBroken := false
 	for i := range post.Blob {
 		if broken[-(100+i)] {
@@ -228,10 +255,30 @@ func checkC14(r *Run, pre, post *Snap, st StepObs, broken map[int]bool) (string,
 	served := new(big.Rat)
 	for _, d := range pa.BAs {
 		v := new(big.Rat).SetInt(new(big.Int).SetUint64(d.CPIV))
+		if d.LF > d.LS && pa.Exp > d.LS {
+			// the share of the failed period (last passed .. last settled challenge) goes back to the owner first
+			fl := big.NewRat(d.LF-d.LS, pa.Exp-d.LS)
+			if fl.Cmp(big.NewRat(1, 1)) > 0 {
+				fl.SetInt64(1)
+			}
+			v.Mul(v, new(big.Rat).Sub(big.NewRat(1, 1), fl))
+			v.Add(v, big.NewRat(1, 1))
+		}
 		if d.LF > 0 && st.Now > d.LF && pa.Exp > d.LF && st.Now < pa.Exp {
 			v.Mul(v, big.NewRat(st.Now-d.LF, pa.Exp-d.LF))
 		} else if d.LF == 0 || st.Now <= d.LF {
 			v.SetInt64(0)
+		}
+		// pass rate: passed / all challenges; open ones counted as passed (upper bound)
+		if d.Tot > 0 {
+			okc := d.Succ
+			if d.Open > 0 {
+				okc += d.Open
+			}
+			if okc < d.Tot {
+				v.Mul(v, big.NewRat(okc, d.Tot))
+				v.Add(v, big.NewRat(1, 1))
+			}
 		}
 		served.Add(served, v)
 	}
@@ -433,6 +480,23 @@ func liabilities(s *Snap) *big.Int {
 // C09: per transaction, the growth of what the contract owes is covered by the growth of its wallet
 // (none of the modelled operations accrues minted rewards).
 func checkC09(r *Run, pre, post *Snap, st StepObs, broken map[int]bool) (string, string) {
+	// read_pool_lock credits exactly the target's pool (every read pool of the state is enumerated)
+	if st.Op.K == "rplock" && st.OK && !broken[-9] {
+		target := st.Op.S
+		if st.Op.C != 0 {
+			target = st.Op.C
+		}
+		for ref, v := range post.RP {
+			want := pre.RP[ref]
+			if ref == target {
+				want += st.Op.V
+			}
+			if v != want {
+				broken[-9] = true
+				return "read-pool-lock-credited-wrong-pool", fmt.Sprintf("read_pool_lock of %d by %d for %d: read pool of %d is %d, expected %d", st.Op.V, st.Op.S, target, ref, v, want)
+			}
+		}
+	}
 	dl := new(big.Int).Sub(liabilities(post), liabilities(pre))
 	dw := new(big.Int).Sub(new(big.Int).SetUint64(post.Bal[refSC]), new(big.Int).SetUint64(pre.Bal[refSC]))
 	if dl.Cmp(dw) > 0 {
